@@ -57,8 +57,8 @@ Print Assumptions C03_infeasible_right.
 
 (* contract level (any domain): True only for containment of assumptions and of guarantees under
    the right side's assumptions; different interfaces are rejected *)
-Theorem C03_contract_sound : forall (D : Domain) (B : Type) (dt : term -> B -> Prop) (wf : term -> Prop),
-  DomainSpec B dt wf ->
+Theorem C03_contract_sound : forall (D : Domain) (B : Type) (dt : term -> B -> Prop) (wf : term -> Prop) (pv : var -> Prop),
+  DomainSpec B dt wf pv -> RefinesSpec B dt wf ->
   forall c1 c2, wfc wf c1 -> wfc wf c2 ->
   IoContract_refines c1 c2 = inl true ->
   (forall b, den B dt (c_a c2) b -> den B dt (c_a c1) b) /\
@@ -66,16 +66,17 @@ Theorem C03_contract_sound : forall (D : Domain) (B : Type) (dt : term -> B -> P
 Proof. exact @AlgebraSound.refines_sound. Qed.
 Print Assumptions C03_contract_sound.
 
+(* (a bare call of the refinement test: needs RefinesSpec only) *)
 Theorem C03_environment : forall (D : Domain) (B : Type) (dt : term -> B -> Prop) (wf : term -> Prop),
-  DomainSpec B dt wf ->
+  RefinesSpec B dt wf ->
   forall c comp, wfc wf c -> wfs wf comp ->
   IoContract_contains_environment c comp = inl true ->
   forall b, den B dt comp b -> den B dt (c_a c) b.
 Proof. exact @contains_environment_sound. Qed.
 Print Assumptions C03_environment.
 
-Theorem C03_implementation : forall (D : Domain) (B : Type) (dt : term -> B -> Prop) (wf : term -> Prop),
-  DomainSpec B dt wf ->
+Theorem C03_implementation : forall (D : Domain) (B : Type) (dt : term -> B -> Prop) (wf : term -> Prop) (pv : var -> Prop),
+  DomainSpec B dt wf pv -> RefinesSpec B dt wf ->
   forall c comp, wfc wf c -> wfs wf comp ->
   IoContract_contains_implementation c comp = inl true ->
   forall b, den B dt comp b -> den B dt (c_a c) b -> den B dt (c_g c) b.
